@@ -20,7 +20,10 @@
 //   of the one shared handle, or refInc().  At the next barrier (all handles alive, nobody
 //   operating) main reads useCount(); the workers then release concurrently; at the next
 //   quiescent point main reads the count again and whether the destructor already ran, and
-//   finally releases its own references.  The pointee storage of this action is QUARANTINED
+//   finally releases its own references.  With "lenderFirst" main releases ITS references at
+//   the first quiescent point instead, so that the k workers' concurrent releases start from a
+//   count of exactly k and one of them is the last release: the object must be destroyed
+//   exactly once, by them.  The pointee storage of this action is QUARANTINED
 //   (operator delete keeps it, nothing is reused), so a too-early destruction is observed as a
 //   fact (destructor log) instead of being undefined behaviour.  A worker notes whether any
 //   other worker had already finished when it started: rounds in which at least two workers
@@ -354,6 +357,8 @@ struct Rounds
   std::atomic<int> quit{0};
   std::atomic<int> done{0};   // workers that finished their acquisition in this round
   std::atomic<int> early{0};  // workers that started while nobody had finished
+  std::atomic<int> doneRel{0};   // the same two for the release phase
+  std::atomic<int> earlyRel{0};
   RNode *obj = nullptr;
   HR *shared = nullptr;
   Rounds(int k_, int start_, int how_, long long r) : k(k_), start(start_), how(how_), rounds(r), bar(k_ + 1) {}
@@ -374,9 +379,12 @@ static void roundWorker(Rounds *R, int w)
     R->done.fetch_add(1);
     if (seen == 0) R->early.fetch_add(1);
     R->bar.wait();  // B: everybody holds a reference; main reads the count
-    R->bar.wait();  // C: main has read
+    R->bar.wait();  // C: main has read (and, with lenderFirst, released its own references)
+    const int seenRel = R->doneRel.load();
     if (mode == 2) p->refDec();
     else reinterpret_cast<HR *>(mem)->~HR();
+    R->doneRel.fetch_add(1);
+    if (seenRel == 0) R->earlyRel.fetch_add(1);
     R->bar.wait();  // D: everybody has released; main reads again and releases its own
   }
 }
@@ -393,6 +401,7 @@ static Json runRounds(const Json &arg)
   const int how = hs == "raw" ? 0 : hs == "copy" ? 1 : hs == "refinc" ? 2 : 3;
   const long long rounds = arg["rounds"].num();
   const long long maxms = arg.has("maxms") ? arg["maxms"].num() : 4000;
+  const bool lenderFirst = arg.has("lenderFirst") && arg["lenderFirst"].num() != 0;
   Rounds *R = new Rounds(k, start, how, rounds);
   std::vector<std::thread> th;
   for (int w = 0; w < k; ++w) th.emplace_back(roundWorker, R, w);
@@ -400,7 +409,7 @@ static Json runRounds(const Json &arg)
   // destructions before main released anything, destructions at the end, overlapping (0/1)
   std::vector<std::vector<long long>> kinds;
   std::vector<long long> mult;
-  long long performed = 0, overlapping = 0;
+  long long performed = 0, overlapping = 0, overlappingRel = 0;
   const auto t0 = std::chrono::steady_clock::now();
   for (long long r = 0; r < rounds; ++r) {
     if ((r & 63) == 63 &&
@@ -418,16 +427,28 @@ static Json runRounds(const Json &arg)
     R->obj = o;
     R->done.store(0);
     R->early.store(0);
+    R->doneRel.store(0);
+    R->earlyRel.store(0);
     R->bar.wait();  // A
     R->bar.wait();  // B: quiescent, every worker holds its reference
     const long long dMid = g_rdtors.load() - d0;
     const long long mid = dMid ? -1 : o->useCount();
     const int ov = R->early.load() >= 2 ? 1 : 0;
+    bool released = false;
+    if (lenderFirst && dMid == 0) {  // main gives up everything it holds: the count is now exactly k, held by the workers
+      for (int i = 0; i + 1 < start; ++i) extra[i] = nullptr;
+      if (viaHandle) delete R->shared;
+      else o->refDec();
+      released = true;
+    }
     R->bar.wait();  // C
     R->bar.wait();  // D: quiescent, every worker has released
+    const int ovRel = R->earlyRel.load() >= 2 ? 1 : 0;
     const long long dAfter = g_rdtors.load() - d0;
     const long long after = dAfter ? -1 : o->useCount();
-    if (dAfter == 0) {  // (a destroyed object is not touched again)
+    if (released) {
+      // nothing left to do: the workers' releases were the last ones
+    } else if (dAfter == 0) {  // (a destroyed object is not touched again)
       for (int i = 0; i + 1 < start; ++i) extra[i] = nullptr;
       if (viaHandle) delete R->shared;  // the lender's release
       else o->refDec();
@@ -437,6 +458,8 @@ static Json runRounds(const Json &arg)
     const long long dEnd = g_rdtors.load() - d0;
     std::vector<long long> kind;
     kind.push_back(mid); kind.push_back(dMid); kind.push_back(after); kind.push_back(dAfter); kind.push_back(dEnd); kind.push_back(ov);
+    kind.push_back(ovRel);
+    overlappingRel += ovRel;
     size_t j = 0;
     for (; j < kinds.size(); ++j)
       if (kinds[j] == kind) break;
@@ -454,6 +477,8 @@ static Json runRounds(const Json &arg)
   out.set("how", hs);
   out.set("rounds", performed);
   out.set("overlapping", overlapping);
+  out.set("overlappingRel", overlappingRel);
+  out.set("lenderFirst", (long long)(lenderFirst ? 1 : 0));
   Json ks = Json::array();
   for (size_t j = 0; j < kinds.size(); ++j) {
     Json e = Json::object();
@@ -463,6 +488,7 @@ static Json runRounds(const Json &arg)
     e.set("destroyedAfter", kinds[j][3]);
     e.set("destroyedEnd", kinds[j][4]);
     e.set("overlap", kinds[j][5]);
+    e.set("overlapRel", kinds[j][6]);
     e.set("n", mult[j]);
     ks.push(e);
   }
